@@ -17,8 +17,8 @@ _DECL_CACHE = {}
 def decls(e):
     """names of the uninterpreted functions/constants/sorts occurring in e"""
     key = e.get_id()
-    if key in _DECL_CACHE:
-        return _DECL_CACHE[key]
+    if key in _DECL_CACHE and _DECL_CACHE[key][0].eq(e):
+        return _DECL_CACHE[key][1]
     out = set()
     seen = set()
     stack = [e]
@@ -38,7 +38,7 @@ def decls(e):
                 out.add(d.name())
             out.add("sort:" + str(x.sort()))
             stack.extend(x.children())
-    _DECL_CACHE[key] = out
+    _DECL_CACHE[key] = (e, out)  # keeping `e` alive pins its AST id (ids are recycled after garbage collection)
     return out
 
 
